@@ -3,6 +3,7 @@ package main
 import (
 	"encoding/json"
 	"fmt"
+	"github.com/xuperchain/xupercore/kernel/engines/xuperos/xpb"
 	"hash/fnv"
 	"io/ioutil"
 	"os"
@@ -104,6 +105,19 @@ func (c *childResult) sample(v interface{}) {
 }
 
 func (c *childResult) save(path string) {
+	// subscriber-side decoding (see recSub.record): totals so far
+	if n := atomic.LoadInt64(&decodes); n > 0 {
+		c.mu.Lock()
+		if c.Counters == nil {
+			c.Counters = map[string]int64{}
+		}
+		c.Counters["sub.decodes"] = n
+		c.mu.Unlock()
+		if f := atomic.LoadInt64(&decodeFailures); f > 0 {
+			c.violation("dispatch|subscriber-cannot-decode-uncorrupted-message", fmt.Sprintf("%d of %d hand-overs of uncorrupted messages could not be decoded by the subscriber (p2p.Unmarshal)", f, n), nil)
+			atomic.StoreInt64(&decodeFailures, 0)
+		}
+	}
 	c.mu.Lock()
 	buf, err := json.Marshal(c)
 	c.mu.Unlock()
@@ -214,7 +228,18 @@ type recorder struct {
 
 func (rc *recorder) tick() int64 { return atomic.AddInt64(&rc.seq, 1) }
 
+// decodeFailures counts hand-overs whose message a subscriber could not decode (p2p.Unmarshal, what
+// every real subscriber does first); the messages of the dispatcher tests are never corrupted.
+var decodeFailures, decodes int64
+
 func (s *recSub) record(rc *recorder, msg *pb.XuperMessage) {
+	if msg.GetHeader().GetDataCheckSum() != 0 {
+		var bid xpb.BlockID
+		atomic.AddInt64(&decodes, 1)
+		if err := p2p.Unmarshal(msg, &bid); err != nil {
+			atomic.AddInt64(&decodeFailures, 1)
+		}
+	}
 	q := rc.tick()
 	s.mu.Lock()
 	s.deliv = append(s.deliv, delivery{q, msg})
